@@ -45,13 +45,15 @@ def parseIdArg (s : State) (t : String) : Option IdArg :=
   else (parseId s t).map .str
 
 def parseTarget (s : State) (t : String) : Option Target :=
-  if t == "N" then some .noneArg else if t == "X" then some .plain
+  if t == "N" then some .noneArg else if t == "X" then some .plain else if t == "B" then some .daemonObj
   else match parseEnt t with
     | some e => some (.byObj e)
     | none => (parseId s t).map .byId
 
 def parseSer (t : String) : Option Ser :=
-  if t == "s" then some .serpent else if t == "j" then some .json else if t == "m" then some .msgpack else none
+  -- upper case = the object is returned nested in a container (same model step)
+  if t == "s" || t == "S" then some .serpent else if t == "j" || t == "J" then some .json
+  else if t == "m" || t == "M" then some .msgpack else none
 
 def parseCfg (t : String) : Option Cfg :=
   match t.toList with
